@@ -25,6 +25,15 @@ GITENV = {'GIT_CONFIG_COUNT': '1', 'GIT_CONFIG_KEY_0': 'init.defaultBranch',
           'GIT_CONFIG_VALUE_0': 'master'}
 
 
+def needs_of(notes):
+    '''The "what it needs in order to manifest" paragraph of notes.md.'''
+    import re
+    mat = re.search(r'(?is)(what (it|exactly it) needs[^\n]*\n+)(.*?)'
+                    r'(\n#|\n\*\*[A-Z]|\Z)', notes)
+    text = mat.group(3) if mat else notes
+    return ' '.join(text.replace('`', '').replace('*', '').split())[:700]
+
+
 def sh(cmd, **kw):
     return subprocess.run(cmd, capture_output=True, text=True, **kw)
 
@@ -99,12 +108,16 @@ def main():
             os.makedirs(dst, exist_ok=True)
             for name in ('patch.diff', 'demo.py', 'notes.md'):
                 src = os.path.join(seeddir, name)
-                if os.path.exists(src):
+                if os.path.exists(src) and os.path.abspath(src) != \
+                        os.path.abspath(os.path.join(dst, name)):
                     shutil.copy(src, os.path.join(dst, name))
             meta_path = os.path.join(dst, 'meta.json')
             meta = {}
             if os.path.exists(meta_path):
                 meta = json.load(open(meta_path))
+            notes_path = os.path.join(dst, 'notes.md')
+            if os.path.exists(notes_path) and not meta.get('needs'):
+                meta['needs'] = needs_of(open(notes_path).read())
             meta.update({
                 'id': keep, 'breaks_property': props[0],
                 'confirmed': {
